@@ -2,7 +2,8 @@
 (* XSLT 1.0 instruction semantics as an executable big-step definition.                          *)
 (*   Transform(ss, F) = the result tree (a normalised sequence of result items) of applying       *)
 (*   stylesheet ss to document 1 of forest F.                                                      *)
-(* Stylesheet:  [templates, gvars, keys, strip, mods]                                              *)
+(* Stylesheet:  [templates, gvars, keys, strip, mods, docs]                                        *)
+(*   docs: <<[uri, idx]>> - the documents document() can load: F[idx] is the document named uri    *)
 (*   template: [rid, hasMatch, match, name, mode, hasPrio, prio, params, body, mod]                *)
 (*   mods: the import tree as a sequence of [id, imports (ids, in xsl:import order)]; mods[1] is   *)
 (*   the principal module (2.6.2).  Template rules, named templates and xsl:apply-imports (5.6)    *)
@@ -251,11 +252,13 @@ Globals(gs, j, c) == IF j > Len(gs) THEN c.vars
 Strict == [zeroAnyEmpty |-> FALSE]
 TransformWith(ss, F0, dev) ==
   LET \* 3.4: the whitespace-only text nodes selected by the strip-space declarations are not in the source tree
-      F == <<RemoveNodes(F0[1], StrippedIds(F0[1], ss.strip))>> \o SubSeq(F0, 2, Len(F0))
+      \* (document() documents included, 3.4 / 12.1)
+      F == [k \in 1..Len(F0) |-> RemoveNodes(F0[k], StrippedIds(F0[k], ss.strip))]
       root == <<1, 1, 0>>
       tree == ModuleTree(ss, 1)
       c0 == [f |-> F, n |-> root, pos |-> 1, size |-> 1, vars |-> <<>>, cur |-> root, keys |-> ss.keys,
-             ss |-> ss, entries |-> Entries(tree), modprec |-> ModPrecs(tree), gv |-> <<>>, dev |-> dev, mode |-> <<>>, rule |-> NoRule]
+             ss |-> ss, entries |-> Entries(tree), modprec |-> ModPrecs(tree), gv |-> <<>>, dev |-> dev, mode |-> <<>>, rule |-> NoRule,
+             docs |-> ss.docs]
       gv == Globals(ss.gvars, 1, c0)
       c1 == [c0 EXCEPT !.gv = gv, !.vars = gv]
       items == Normalize(ApplyTo(<<root>>, 1, [mode |-> "", passed |-> <<>>], c1))
